@@ -14,7 +14,15 @@ use std::time::Instant;
 pub mod iso;
 pub use iso::*;
 
-pub const VERIF_ROOT: &str = "/verif";
+/// Root of the verification tree (`VERIF_ROOT` env override is used by tools/mutant_run.sh only).
+pub fn verif_root() -> String {
+    std::env::var("VERIF_ROOT").unwrap_or_else(|_| "/verif".to_string())
+}
+
+/// Root of the repository under test (`VERIF_REPO` env override is used by tools/mutant_run.sh only).
+pub fn repo_root() -> String {
+    std::env::var("VERIF_REPO").unwrap_or_else(|_| "/repo".to_string())
+}
 
 #[derive(Clone, Copy, PartialEq, Eq, Debug)]
 pub enum Tier {
@@ -44,7 +52,7 @@ struct Known {
 }
 
 fn load_known() -> Vec<Known> {
-    let path = format!("{VERIF_ROOT}/known_findings.jsonl");
+    let path = format!("{}/known_findings.jsonl", verif_root());
     let mut out = Vec::new();
     let Ok(text) = std::fs::read_to_string(&path) else {
         return out;
@@ -155,7 +163,7 @@ impl Run {
             return;
         }
         self.violations += 1;
-        let dir = format!("{VERIF_ROOT}/replays/{}", self.id);
+        let dir = format!("{}/replays/{}", verif_root(), self.id);
         let _ = std::fs::create_dir_all(&dir);
         let h = fnv(key.as_bytes());
         let path = format!("{dir}/{h:016x}.json");
@@ -187,7 +195,7 @@ impl Run {
             "wall_s": (wall * 100.0).round() / 100.0,
             "violations": self.violations,
         });
-        let dir = format!("{VERIF_ROOT}/evidence");
+        let dir = format!("{}/evidence", verif_root());
         let _ = std::fs::create_dir_all(&dir);
         let path = format!("{dir}/{}.json", self.id);
         if let Err(e) = std::fs::write(&path, serde_json::to_string_pretty(&ev).unwrap() + "\n") {
